@@ -6,8 +6,12 @@ c16::result c16::eval_c(std::string const &fn, char const k, params const &ps, s
   C16_PREAMBLE
   if (fn == "fold" && np == 0)
   {
-    if (!(ro || k == 'a')) return bad;
+    if (!(ro || k == 'a' || k == 't' || k == 'p')) return bad;
     auto const step = [](auto const &e, ulong const st) { return st * 4 + static_cast<ulong>(val(e)) + 1; };
+    if (k == 't')
+      return with_size<3>(v.size(), [&](auto n) { return std::to_string(alg::fold(mk_tuple<SZ(n)>(v, 0), 0UL, step)); });
+    if (k == 'p')
+      return with_mpl(v, [&](auto list) { return std::to_string(alg::fold(list, 0UL, step)); });
     if (k == 'a')
       return with_size<6>(v.size(), [&](auto n) {
         auto const src{mk_array<SZ(n)>(v, 0)};
@@ -44,12 +48,16 @@ c16::result c16::eval_c(std::string const &fn, char const k, params const &ps, s
   }
   if (fn == "loop" && np == 0)
   {
-    if (!ro) return bad;
-    return with_ro(k, v, [&](auto const &c) {
-      seq log;
-      alg::loop(c, [&log](auto const &e) { log.push_back(val(e)); });
-      return ds(log);
-    });
+    if (!(ro || k == 'a' || k == 't' || k == 'p')) return bad;
+    seq log;
+    auto const body = [&log](auto const &e) { log.push_back(val(e)); };
+    if (k == 'a')
+      return with_size<6>(v.size(), [&](auto n) { alg::loop(mk_array<SZ(n)>(v, 0), body); return ds(log); });
+    if (k == 't')
+      return with_size<3>(v.size(), [&](auto n) { alg::loop(mk_tuple<SZ(n)>(v, 0), body); return ds(log); });
+    if (k == 'p')
+      return with_mpl(v, [&](auto list) { alg::loop(list, body); return ds(log); });
+    return with_ro(k, v, [&](auto const &c) { alg::loop(c, body); return ds(log); });
   }
   if ((fn == "allof" || fn == "containsif") && np == 1)
   {
